@@ -55,6 +55,9 @@ impl Op {
     }
 }
 
+/// set in a process that was started to judge one trace (so that it judges it itself)
+pub static IN_CHILD: std::sync::atomic::AtomicBool = std::sync::atomic::AtomicBool::new(false);
+
 /// what is executing right now, for a fault handler (relaxed; never read by a decision)
 pub static CUR_RUN: std::sync::atomic::AtomicU64 = std::sync::atomic::AtomicU64::new(u64::MAX);
 pub static CUR_OP: std::sync::atomic::AtomicU64 = std::sync::atomic::AtomicU64::new(u64::MAX);
@@ -159,6 +162,11 @@ pub trait Scenario: Sync {
     fn task_logs(&self, _w: &Self::World) -> Vec<u64> {
         vec![]
     }
+    /// true if a trace must be judged in a brand-new process (scenarios about state shared between instances:
+    /// thread-locals and statics polluted by earlier runs of the same worker would make a replay lie)
+    fn judge_in_child(&self) -> bool {
+        false
+    }
     /// candidate smaller setups (with ops remapped) for minimisation
     fn shrink_setup(&self, _setup: &J, _ops: &[Op]) -> Vec<(J, Vec<Op>)> {
         vec![]
@@ -209,6 +217,14 @@ pub fn run_generated<S: Scenario>(s: &S, mix: &str, seed: u64, max_ops: usize, s
 }
 
 pub fn run_generated_at<S: Scenario>(s: &S, mix: &str, seed: u64, run_index: u64, max_ops: usize, stats: &mut Stats) -> RunOutcome {
+    if s.judge_in_child() {
+        // scenarios about state shared between instances start every run on a fresh thread (cold thread-locals)
+        return std::thread::scope(|sc| sc.spawn(|| run_generated_here(s, mix, seed, run_index, max_ops, stats)).join().expect("run thread"));
+    }
+    run_generated_here(s, mix, seed, run_index, max_ops, stats)
+}
+
+fn run_generated_here<S: Scenario>(s: &S, mix: &str, seed: u64, run_index: u64, max_ops: usize, stats: &mut Stats) -> RunOutcome {
     let mut st = Streams::new(seed);
     st.run_index = run_index;
     let setup = s.gen_setup(mix, &mut st);
@@ -253,7 +269,39 @@ pub fn run_trace_digest<S: Scenario>(s: &S, setup: &J, ops: &[Op], stats: &mut S
     (None, s.log_digest(&w))
 }
 
+/// judge a trace in a brand-new process (`simworker replay --file`)
+pub fn run_trace_in_child<S: Scenario>(s: &S, setup: &J, ops: &[Op]) -> Option<(Violation, usize)> {
+    use std::sync::atomic::{AtomicU64, Ordering};
+    static N: AtomicU64 = AtomicU64::new(0);
+    let exe = std::env::current_exe().ok()?;
+    let dir = std::env::temp_dir();
+    let path = dir.join(format!("simworker-cand-{}-{}.json", std::process::id(), N.fetch_add(1, Ordering::Relaxed)));
+    let j = J::obj().set("scenario", J::str(s.name())).set("setup", setup.clone()).set("ops", J::A(ops.iter().map(|o| o.to_json()).collect()));
+    std::fs::write(&path, j.to_string()).ok()?;
+    let out = std::process::Command::new(exe).arg("replay").arg("--file").arg(&path).stderr(std::process::Stdio::null()).output();
+    let _ = std::fs::remove_file(&path);
+    let out = out.ok()?;
+    let text = String::from_utf8_lossy(&out.stdout).to_string();
+    let r = J::parse(text.trim().lines().last().unwrap_or("")).ok()?;
+    if r.get("reproduced") != Some(&J::Bool(true)) {
+        return None;
+    }
+    let v = r.get("violation")?;
+    Some((
+        Violation {
+            props: v.arr("properties").iter().filter_map(|p| p.as_str().map(|s| s.to_string())).collect(),
+            invariant: v.s("invariant").unwrap_or("").to_string(),
+            signature: v.s("signature").unwrap_or("").to_string(),
+            detail: v.s("detail").unwrap_or("").to_string(),
+        },
+        v.u_or("at_op", 0) as usize,
+    ))
+}
+
 pub fn run_trace<S: Scenario>(s: &S, setup: &J, ops: &[Op], stats: &mut Stats) -> Option<(Violation, usize)> {
+    if s.judge_in_child() && !IN_CHILD.load(std::sync::atomic::Ordering::Relaxed) {
+        return run_trace_in_child(s, setup, ops);
+    }
     let mut w = s.new_world(setup);
     for (i, op) in ops.iter().enumerate() {
         if let Step::Fail(v) = s.step(&mut w, op, stats) {
@@ -271,8 +319,9 @@ fn same_class(a: &Violation, b: &Violation) -> bool {
 }
 
 /// ddmin over the operation list, then setup shrinking, then argument shrinking.
-pub fn minimise<S: Scenario>(s: &S, setup: &J, ops: &[Op], target: &Violation) -> (J, Vec<Op>, Violation, usize) {
-    let mut budget = 3000usize;
+/// returns (setup, ops, violation, failing op index, reproduced from the explicit trace?)
+pub fn minimise<S: Scenario>(s: &S, setup: &J, ops: &[Op], target: &Violation) -> (J, Vec<Op>, Violation, usize, bool) {
+    let mut budget = if s.judge_in_child() { 300usize } else { 3000usize };
     let mut scratch = Stats::default();
     let mut cur_setup = setup.clone();
     let mut cur: Vec<Op> = ops.to_vec();
@@ -294,8 +343,8 @@ pub fn minimise<S: Scenario>(s: &S, setup: &J, ops: &[Op], target: &Violation) -
         cur_v = v;
         cur_at = at;
     } else {
-        // not reproducible from the trace: report as is
-        return (cur_setup, cur, cur_v, cur_at);
+        // not reproducible from the trace alone (it needed what earlier runs left behind in the process)
+        return (cur_setup, cur, cur_v, cur_at, false);
     }
     let mut n = 2usize;
     while cur.len() >= 2 && budget > 0 {
@@ -368,7 +417,7 @@ pub fn minimise<S: Scenario>(s: &S, setup: &J, ops: &[Op], target: &Violation) -
             }
         }
     }
-    (cur_setup, cur, cur_v, cur_at)
+    (cur_setup, cur, cur_v, cur_at, true)
 }
 
 pub struct BatchCfg {
@@ -392,6 +441,8 @@ pub struct Found {
     pub violation: Violation,
     pub at_op: usize,
     pub minimised_from: usize,
+    /// false: the explicit trace alone does not fail in a fresh process; the replay is the batch prefix
+    pub from_trace: bool,
 }
 
 pub struct BatchResult {
@@ -469,6 +520,7 @@ pub fn run_batch<S: Scenario>(s: &S, cfg: &BatchCfg) -> BatchResult {
                                 run_seed: seed,
                                 run_index: r,
                                 minimised_from: out.ops.len(),
+                                from_trace: true,
                                 setup: out.setup,
                                 ops: out.ops,
                                 violation: v,
@@ -520,7 +572,8 @@ pub fn run_batch<S: Scenario>(s: &S, cfg: &BatchCfg) -> BatchResult {
     total.found.truncate(8);
     // minimise what was found (sequentially; bounded budget each)
     for f in total.found.iter_mut() {
-        let (setup, ops, v, at) = minimise(s, &f.setup, &f.ops, &f.violation);
+        let (setup, ops, v, at, from_trace) = minimise(s, &f.setup, &f.ops, &f.violation);
+        f.from_trace = from_trace;
         f.setup = setup;
         f.ops = ops;
         f.violation = v;
